@@ -24,7 +24,7 @@ class C05(InterpProp):
     cmp_slot = ('time',)
     cmp_callbacks = False
     cmp_err = 'class'
-    quick_cases = 800
+    quick_cases = 2000
     thorough_cases = 30000
     n_ops = 60
     rule = ('random charts with sending actions (with and without delay), always-enabled eventless transitions and '
@@ -35,8 +35,13 @@ class C05(InterpProp):
             'non-trivial = a run in which ≥2 tickets were pending at once with equal due time or of both classes')
 
     def knobs(self, rnd, tier):
-        return gen.Knobs(sends=0.5, p_eventless=0.15, max_states=rnd.choice([6, 10, 14]), p_guard=0.35, clock_moves=0.4,
-                         neg_delays=True)
+        kn = gen.Knobs(sends=0.5, p_eventless=0.15, max_states=rnd.choice([6, 10, 14]), p_guard=0.35, clock_moves=0.4,
+                       neg_delays=True, failing=rnd.choice([0.0, 0.0, 0.1]))
+        if kn.failing:
+            # (an exception can leave a history pseudo-state in the configuration, where a later exit records it as its
+            #  own memory and stabilisation never ends: what follows an exception is only looked at without them)
+            kn.p_history = 0.0
+        return kn
 
     def gen_case(self, rnd, tier):
         case = super().gen_case(rnd, tier)
@@ -139,8 +144,10 @@ class C05(InterpProp):
 
     def check_exec(self, info, res):
         r, gh = info['r'], info['ghost']
-        if not gh.clean:
+        if not gh.qclean:
             return
+        if not gh.clean:
+            res.features.add('after-an-exception')
         k, t = info['k'], info['clock']
         out = r['outcome']
         if out == 'error':
